@@ -347,6 +347,8 @@ class Translator:
                    ast.Gt: lambda: a > b, ast.GtE: lambda: a >= b,
                    ast.Is: lambda: a is b, ast.IsNot: lambda: a is not b}
             return tbl[type(op)]()
+        if isinstance(op, (ast.Eq, ast.NotEq)) and ((a is None) != (b is None)):
+            return isinstance(op, ast.NotEq)          # None == <anything else> is False
         if isinstance(op, (ast.Is, ast.IsNot)):
             if b is None or a is None:
                 res = (a is None) == (b is None)
@@ -374,6 +376,11 @@ class Translator:
             if isinstance(op, ast.Gt): return B('(ltb N %s %s)' % (self.rs(b), self.rs(a)))
             if isinstance(op, ast.GtE): return B('(leb N %s %s)' % (self.rs(b), self.rs(a)))
             if type(op) in tbl: return B(tbl[type(op)] % (self.rs(a), self.rs(b)))
+        if isinstance(a, Obj) and isinstance(b, Obj) and isinstance(op, (ast.Eq, ast.NotEq)):
+            if a.cls != b.cls:
+                return isinstance(op, ast.NotEq)
+            fs = [f_ for f_ in self.CTORS.get(a.cls, ()) if f_ != 'autoscale_radius']
+            return self.compare(op, [a.attrs[f_] for f_ in fs], [b.attrs[f_] for f_ in fs], node)
         if isinstance(a, (tuple, list)) and isinstance(b, (tuple, list)) and isinstance(op, (ast.Eq, ast.NotEq)):
             if len(a) != len(b):
                 return isinstance(op, ast.NotEq)
@@ -473,6 +480,11 @@ class Translator:
                 n = len(v.cs) - 1
                 return v.cs[n - idx] if 0 <= idx <= n else 0
             raise Unsupported('poly subscript', e)
+        if isinstance(v, dict):
+            k = self.ev(sl, env)
+            if isinstance(k, str) and k in v:
+                return v[k]
+            raise Unsupported('dict subscript', e)
         if not isinstance(v, (tuple, list)):
             raise Unsupported('subscript of %r' % (v,), e)
         if isinstance(sl, ast.Slice):
@@ -580,14 +592,20 @@ class Translator:
 
     def ev_Call(self, e, env):
         f = e.func
-        if e.keywords and not (isinstance(f, ast.Name) and (f.id in self.funcs or f.id in env)) \
+        if e.keywords and not (isinstance(f, ast.Name) and (f.id in self.funcs or f.id in env or f.id in self.CTORS)) \
                 and not isinstance(f, ast.Attribute):
             raise Unsupported('keyword arguments', e)
         kw = {k.arg: self.ev(k.value, env) for k in e.keywords}
         if isinstance(f, ast.Attribute):
             # module functions np.xxx / math.xxx
             if isinstance(f.value, ast.Name) and f.value.id in ('np', 'numpy', 'math'):
-                return self.builtin(f.attr, [self.ev(a, env) for a in e.args], kw, e)
+                saved = self.isclose_cmp
+                if f.attr == 'isclose':
+                    self.isclose_cmp = 'leb'       # numpy: |a-b| <= atol + rtol*|b| ; misctools.isclose: <
+                try:
+                    return self.builtin(f.attr, [self.ev(a, env) for a in e.args], kw, e)
+                finally:
+                    self.isclose_cmp = saved
             recv = self.ev(f.value, env)
             args = [self.ev(a, env) for a in e.args]
             if isinstance(recv, list):
@@ -603,6 +621,8 @@ class Translator:
             if isinstance(recv, Obj):
                 return self.call_method(recv, f.attr, args, e, kw)
             raise Unsupported('method call ' + f.attr, e)
+        if isinstance(f, ast.Name) and f.id in self.CTORS:
+            return self.construct(f.id, e, env)
         if isinstance(f, ast.Name) and f.id == 'isinstance' and len(e.args) == 2:
             return self.static_isinstance(self.ev(e.args[0], env), e.args[1], e)
         if isinstance(f, ast.Name):
@@ -623,6 +643,43 @@ class Translator:
 
     no_inline = set()
     consts = {}
+
+    # constructors of the segment classes build an Obj (no side effects are modelled:
+    # Arc() derives centre/theta/delta in _parameterize, which is NOT run here — an
+    # Arc Obj only carries its constructor arguments)
+    CTORS = {'Line': ('start', 'end'),
+             'QuadraticBezier': ('start', 'control', 'end'),
+             'CubicBezier': ('start', 'control1', 'control2', 'end'),
+             'Arc': ('start', 'radius', 'rotation', 'large_arc', 'sweep', 'end', 'autoscale_radius')}
+
+    def construct(self, cls, e, env):
+        fields = self.CTORS[cls]
+        args = []
+        for a in e.args:
+            if isinstance(a, ast.Starred):
+                v = self.ev(a.value, env)
+                if isinstance(v, Obj): v = self.call_method(v, 'bpoints', [], e)
+                if not isinstance(v, (list, tuple)):
+                    raise Unsupported('starred argument of non-static length', e)
+                args.extend(v)
+            else:
+                args.append(self.ev(a, env))
+        attrs = dict(zip(fields, args))
+        if len(args) > len(fields):
+            raise Unsupported('too many constructor arguments', e)
+        for k in e.keywords:
+            if k.arg not in fields or k.arg in attrs:
+                raise Unsupported('constructor keyword ' + str(k.arg), e)
+            attrs[k.arg] = self.ev(k.value, env)
+        if cls == 'Arc':
+            attrs.setdefault('autoscale_radius', True)
+            for fl in ('large_arc', 'sweep'):       # Arc.__init__ stores bool(flag)
+                if fl in attrs:
+                    attrs[fl] = self.truth(attrs[fl], e)
+        missing = [f_ for f_ in fields if f_ not in attrs]
+        if missing:
+            raise Unsupported('constructor arguments missing: %s' % missing, e)
+        return Obj(cls, attrs)
 
     def static_isinstance(self, v, clsnode, node):
         names = [n.id for n in clsnode.elts] if isinstance(clsnode, ast.Tuple) else [clsnode.id] \
@@ -674,6 +731,12 @@ class Translator:
             for v in a[0]:
                 out = self.binop(ast.Add(), out, v)
             return out
+        if name in ('any', 'all') and len(a) == 1 and isinstance(a[0], (list, tuple)):
+            out = (name == 'all')
+            for v in a[0]:
+                tv = self.truth(v, node)
+                out = self.bool_and(out, tv) if name == 'all' else self.bool_or(out, tv)
+            return out
         if name == 'float' and len(a) == 1 and is_realish(a[0]): return a[0]
         if name == 'int' and len(a) == 1 and isinstance(a[0], (int, bool)): return int(a[0])
         if name == 'bool' and len(a) == 1: return self.truth(a[0], node)
@@ -698,6 +761,10 @@ class Translator:
             self.need_T()
             canon = {'arccos': 'acos', 'arcsin': 'asin', 'arctan': 'atan', 'log': 'ln'}.get(name, name)
             return R('(%s_ T %s)' % (canon, self.rs(a[0])))
+        if name == 'exp' and len(a) == 1 and isinstance(a[0], C) and isinstance(a[0].re, int) and a[0].re == 0:
+            self.need_T()       # exp(1j*x) = cos x + i sin x
+            x = self.rs(a[0].im)
+            return C(R('(cos_ T %s)' % x), R('(sin_ T %s)' % x))
         if name == 'isclose' and len(a) == 2 and is_realish(a[0]) and is_realish(a[1]):
             rtol = kw.get('rtol', 1e-05); atol = kw.get('atol', 1e-08)
             # misctools.isclose / np.isclose on finite reals: |a-b| < / <= atol + rtol*|b|
@@ -869,6 +936,15 @@ class Translator:
         if ty == 'Z':
             if isinstance(v, int): return '(%d)%%Z' % v
             if isinstance(v, ZS): return v.s
+        if isinstance(ty, tuple) and ty[0] == 'obj':
+            if not (isinstance(v, Obj) and v.cls == ty[1]):
+                raise Unsupported('expected a %s object, got %r' % (ty[1], v))
+            fs = [(f_, t_) for f_, t_ in ty[2] if f_ in self.CTORS[ty[1]] and not (isinstance(t_, tuple) and t_[0] == 'static')]
+            return '(' + ', '.join(self.render_val(v.attrs[f_], t_) for f_, t_ in fs) + ')'
+        if isinstance(v, Obj) and isinstance(ty, tuple) and ty[0] == 'list' and v.cls in ('Line', 'QuadraticBezier', 'CubicBezier'):
+            v = [v.attrs[f_] for f_ in self.CTORS[v.cls]]
+        if isinstance(v, Obj) and isinstance(ty, tuple) and ty[0] == 'tuple' and v.cls == 'Arc':
+            v = [v.attrs[f_] for f_ in self.CTORS['Arc'][:len(ty[1])]]
         if isinstance(ty, tuple) and ty[0] == 'list':
             if isinstance(v, Poly): v = v.cs
             if isinstance(v, (list, tuple)):
@@ -894,6 +970,9 @@ class Translator:
         if isinstance(ty, tuple) and ty[0] == 'opt': return '(option %s)' % self.coq_type(ty[1])
         if isinstance(ty, tuple) and ty[0] == 'tuple':
             return '(' + ' * '.join(self.coq_type(t) for t in ty[1]) + ')'
+        if isinstance(ty, tuple) and ty[0] == 'obj':     # a constructed segment = the tuple of its constructor arguments
+            fs = [t_ for f_, t_ in ty[2] if f_ in self.CTORS[ty[1]] and not (isinstance(t_, tuple) and t_[0] == 'static')]
+            return '(' + ' * '.join(self.coq_type(t) for t in fs) + ')'
         raise Unsupported('type %r' % (ty,))
 
     def mk_param(self, name, ty, params):
@@ -919,7 +998,13 @@ class Translator:
             cls, fields = ty[1], ty[2]
             attrs = {}
             for fname, fty in fields:
-                attrs[fname] = self.mk_param(fname, fty, params)
+                # fields of `self` keep their names; fields of any other object parameter are
+                # prefixed with the parameter's name (two objects of one class must not collide)
+                pname = fname if name == 'self' else '%s_%s' % (name, fname)
+                attrs[fname] = self.mk_param(pname, fty, params)
+            if cls in ('QuadraticBezier', 'CubicBezier') and '_length_info' not in attrs:
+                # a segment whose length has not been cached (caches are property C16's subject)
+                attrs['_length_info'] = {'length': None, 'bpoints': None, 'error': None, 'min_depth': None}
             return Obj(cls, attrs)
         raise Unsupported('parameter type %r' % (ty,))
 
